@@ -24,6 +24,7 @@ class Sidecar:
             name (str or None): Optional name identifying this sidecar, generally a filename.
         """
         self.name = name
+        self._non_object_documents = []  # type names of loaded documents that are not JSON objects
         self.loaded_dict = self.load_sidecar_files(files)
         self._def_dict = None
         self._extract_definition_issues = []
@@ -153,6 +154,10 @@ class Sidecar:
         merged_dict = {}
         for file in files:
             loaded_json = self.load_sidecar_file(file)
+            if not isinstance(loaded_json, dict):
+                # A sidecar is a JSON object.  Anything else holds no columns; validation reports it.
+                self._non_object_documents.append(type(loaded_json).__name__)
+                continue
             merged_dict.update(loaded_json)
         return merged_dict
 
